@@ -61,6 +61,32 @@ def _new_assert(fi, st):
         return False
 
 
+def _length_guarded_unpack(fi, call):
+    """struct.unpack(<constant format>, X) after a top-level `if len(X) != N: raise ..` (or `if len(X) == N:` around it) with
+    N = calcsize(format): the buffer has the one length unpack accepts"""
+    import struct as _struct
+    if len(call.args) < 2 or not (isinstance(call.args[0], ast.Constant) and isinstance(call.args[0].value, (str, bytes))):
+        return False
+    try:
+        need = _struct.calcsize(call.args[0].value)
+    except Exception:
+        return False
+    buf = norm(call.args[1])
+    fn = fi.node
+    if not isinstance(fn, (ast.FunctionDef, ast.AsyncFunctionDef)):
+        return False
+    for st in fn.body:
+        if getattr(st, "lineno", 10 ** 9) >= call.lineno:
+            break
+        if isinstance(st, ast.If) and isinstance(st.test, ast.Compare) and len(st.test.ops) == 1 and isinstance(st.test.ops[0], ast.NotEq) \
+                and norm(st.test.left) == "len(%s)" % buf and df.const_int(st.test.comparators[0]) == need and st.body and isinstance(st.body[-1], ast.Raise):
+            # and the buffer is not re-bound in between
+            rebound = any(isinstance(n, ast.Name) and isinstance(n.ctx, ast.Store) and n.id == buf for s2 in fn.body for n in ast.walk(s2) if st.lineno < getattr(s2, "lineno", 0) < call.lineno)
+            if not rebound:
+                return True
+    return False
+
+
 class EX:
     def __init__(self, program, bindings=None, extra_resolve=None):
         self.p = program
@@ -190,7 +216,8 @@ class EX:
             elif fn in ("binascii.unhexlify", "binascii.a2b_hex", "unhexlify", "a2b_base64", "binascii.a2b_base64", "bytes.fromhex", "bytearray.fromhex"):
                 out.append(("binascii.Error", norm(node)))
             elif fn in ("struct.unpack", "struct.unpack_from"):
-                out.append(("struct.error", norm(node)))
+                if not _length_guarded_unpack(fi, node):
+                    out.append(("struct.error", norm(node)))
             elif fn == "struct.pack":
                 out.append(("struct.error", norm(node)))
             elif last == "encode" and isinstance(node.func, ast.Attribute) and not isinstance(node.func.value, ast.Constant):
